@@ -24,17 +24,21 @@ structure StripInv (f : Nat) : Prop where
   while_ : ∀ c body σ, execWhile f c (stripB body) σ = execWhile f c body σ
   loop : ∀ h body σ, execLoop f h (stripB body) σ = execLoop f h body σ
   iter : ∀ names lv w body σ, iterLoop f names lv w (stripB body) σ = iterLoop f names lv w body σ
+  operands : ∀ k ops σ, execOperands f k (stripOps ops) σ = execOperands f k ops σ
+  operand : ∀ k o σ, execOperand f k (stripOp o) σ = execOperand f k o σ
 
 theorem stripInv_zero : StripInv 0 :=
   ⟨fun _ _ => by simp [execStmt], fun _ _ => by simp [execBlock], fun _ _ _ _ => by simp [execPasses],
     fun _ _ _ => by simp [execWhile], fun _ _ _ => by simp [execLoop],
-    fun _ _ _ _ _ => by simp [execLoop.eq_def, iterLoop]⟩
+    fun _ _ _ _ _ => by simp [execLoop.eq_def, iterLoop], fun _ _ _ => by simp [execOperands],
+    fun _ _ _ => by simp [execOperand]⟩
 
 theorem stripInv_succ (f : Nat) (ih : StripInv f) : StripInv (f + 1) := by
-  refine ⟨?_, ?_, ?_, ?_, ?_, ?_⟩
+  refine ⟨?_, ?_, ?_, ?_, ?_, ?_, ?_, ?_⟩
   · intro st σ
     cases st with
     | defRoutine n ps body => rfl
+    | action k ops => simp only [stripS, execStmt, ih.operands]
     | ite c t e =>
       cases e with
       | none => simp only [stripS, execStmt, ih.block]
@@ -55,6 +59,14 @@ theorem stripInv_succ (f : Nat) (ih : StripInv f) : StripInv (f + 1) := by
     cases h <;> simp only [execLoop, ih.while_, ih.passes, ih.iter]
   · intro names lv w body σ
     cases w <;> simp only [iterLoop, ih.passes]
+  · intro k ops σ
+    cases ops with
+    | nil => rfl
+    | cons o rest => simp only [stripOps, execOperands, ih.operand, ih.operands]
+  · intro k o σ
+    cases o with
+    | matrixBlock n body => simp only [stripOp, execOperand, ih.block]
+    | _ => rfl
 
 theorem stripInv : ∀ f, StripInv f
   | 0 => stripInv_zero
@@ -106,35 +118,49 @@ mutual
     | .cons o rest, h => by rw [Closed.defsOps, defsOp_frag o h.1, defsOps_frag rest h.2]; rfl
 end
 
-/-- the definitions the loader extracts are the ones `Sem.collect` finds, in the same order -/
-theorem defsB_collect : ∀ (b : Block), FragBlock V (stripB b) →
-    Closed.defsB b = (Sem.collect b).map fun d => (d.1, d.2.body)
-  | .nil, _ => by rw [Closed.defsB]; rfl
-  | .cons st rest, h => by
-    simp only [stripB, FragBlock] at h
-    have ih := defsB_collect rest h.2
-    cases st with
-    | defRoutine n ps body => simp only [Closed.defsB, Closed.defsS, Sem.collect, ih, List.map_cons]; rfl
-    | ite c t e =>
-      cases e with
-      | none =>
+mutual
+  /-- the definitions the loader extracts are the ones `Sem.collect` finds, in the same order -/
+  theorem defsB_collect : ∀ (b : Block), FragBlock V (stripB b) →
+      Closed.defsB b = (Sem.collect b).map fun d => (d.1, d.2.body)
+    | .nil, _ => by rw [Closed.defsB, Sem.collect]; rfl
+    | .cons st rest, h => by
+      simp only [stripB, FragBlock] at h
+      have ih := defsB_collect rest h.2
+      cases st with
+      | defRoutine n ps body => simp only [Closed.defsB, Closed.defsS, Sem.collect, ih, List.map_cons]; rfl
+      | ite c t e =>
+        cases e with
+        | none =>
+          have h1 := h.1
+          simp only [stripS, FragStmt] at h1
+          simp only [Closed.defsB, Closed.defsS, Sem.collect, ih, defsB_collect t h1.2.1, List.map_append]
+        | some e =>
+          have h1 := h.1
+          simp only [stripS, FragStmt] at h1
+          simp only [Closed.defsB, Closed.defsS, Sem.collect, ih, defsB_collect t h1.2.1,
+            defsB_collect e h1.2.2, List.map_append, List.append_assoc]
+      | repeat_ hd body =>
         have h1 := h.1
         simp only [stripS, FragStmt] at h1
-        simp only [Closed.defsB, Closed.defsS, Sem.collect, ih, defsB_collect t h1.2.1, List.map_append]
-      | some e =>
+        simp only [Closed.defsB, Closed.defsS, Sem.collect, ih, defsB_collect body h1.2, List.map_append]
+      | action k ops =>
         have h1 := h.1
         simp only [stripS, FragStmt] at h1
-        simp only [Closed.defsB, Closed.defsS, Sem.collect, ih, defsB_collect t h1.2.1,
-          defsB_collect e h1.2.2, List.map_append, List.append_assoc]
-    | repeat_ hd body =>
-      have h1 := h.1
-      simp only [stripS, FragStmt] at h1
-      simp only [Closed.defsB, Closed.defsS, Sem.collect, ih, defsB_collect body h1.2, List.map_append]
-    | action k ops =>
-      have h1 := h.1
-      simp only [stripS, FragStmt] at h1
-      simp only [Closed.defsB, Closed.defsS, Sem.collect, ih, defsOps_frag ops h1, List.nil_append]
-    | _ => simp only [Closed.defsB, Closed.defsS, Sem.collect, ih, List.nil_append]
+        simp only [Closed.defsB, Closed.defsS, Sem.collect, ih, defsOps_collect ops h1, List.map_append]
+      | _ => simp only [Closed.defsB, Closed.defsS, Sem.collect, ih, List.nil_append]
+  theorem defsOps_collect : ∀ (ops : Operands), FragOperands V (stripOps ops) →
+      Closed.defsOps ops = (Sem.collectOps ops).map fun d => (d.1, d.2.body)
+    | .nil, _ => by rw [Closed.defsOps, Sem.collectOps]; rfl
+    | .cons o rest, h => by
+      simp only [stripOps, FragOperands] at h
+      have ih := defsOps_collect rest h.2
+      cases o with
+      | matrixBlock n body =>
+        have h1 := h.1
+        simp only [stripOp, FragOperand] at h1
+        simp only [Closed.defsOps, Closed.defsOp, Sem.collectOps, ih, defsB_collect body h1, List.map_append]
+      | _ => simp only [Closed.defsOps, Closed.defsOp, Sem.collectOps, ih, List.nil_append]
+end
 
 /-! ## the loaded image of a script with definitions anywhere -/
 
